@@ -41,6 +41,36 @@ class Interval(object):
     def __or__(self, other):
         return type(self)(self._p + other._p)
 
+    def __and__(self, other):
+        out = []
+        for (a, b) in self._p:
+            for (c, d) in other._p:
+                lo, hi = max(a, c), min(b, d)
+                if lo < hi:
+                    out.append((lo, hi))
+        return Interval(out)
+
+    def __sub__(self, other):
+        cur = list(self._p)
+        for (c, d) in other._p:
+            nxt = []
+            for (a, b) in cur:
+                if d <= a or b <= c:
+                    nxt.append((a, b))
+                else:
+                    if a < c:
+                        nxt.append((a, c))
+                    if d < b:
+                        nxt.append((d, b))
+            cur = nxt
+        return Interval(cur)
+
+    def contains(self, item):
+        return item in self
+
+    def overlaps(self, other):
+        return not (self & other).empty
+
     def __eq__(self, other):
         return isinstance(other, Interval) and self._p == other._p
 
